@@ -37,6 +37,9 @@ pub struct Case {
     /// constraint; the verdict then carries the canonical key of the state reached
     #[serde(default, skip_serializing_if = "Option::is_none")]
     pub bfs: Option<(usize, usize)>,
+    /// probe with one line per built-in rule pattern of en and tr as well (about 70 more lines)
+    #[serde(default, skip_serializing_if = "std::ops::Not::not")]
+    pub full_probe: bool,
 }
 
 // ---- the rules ---------------------------------------------------------------------------
@@ -286,6 +289,16 @@ impl Model {
 const PROBES_EN: [&str; 21] = ["foo 5", "foo 7", "bar 5", "baz 5", "foo 5 + 1", "foo 7 + bar 1", "3 btc", "3 xyz", "3 btc to try", "10 usd to try", "1 hour 30 minutes", "10% of 200", "2 aone to atwo", "20 aone to athree", "3 athree to aone", "1 atwo to aone", "5 kb to byte", "24 btwo to bfour", "1 bfour to btwo", "8 btwo to bthree", "2 bthree to btwo"];
 const PROBES_TR: [&str; 4] = ["foo 5", "foo 7", "bar 5", "2 gün"];
 
+fn probe_full(calc: &SmartCalc) -> Vec<(String, Run)> {
+    let mut out = probe(calc);
+    for lang in ["en", "tr"] {
+        for line in super::c01::default_rule_lines(lang) {
+            out.push((format!("{}|{}", lang, line), obs::eval(calc, lang, &line)));
+        }
+    }
+    out
+}
+
 fn probe(calc: &SmartCalc) -> Vec<(String, Run)> {
     let mut out = Vec::new();
     for p in PROBES_EN {
@@ -343,7 +356,7 @@ impl Prop for C18 {
                     for _ in 0..len {
                         ops.push(ch.pick(&alphabet).clone());
                     }
-                    Some(Case { ops, pooled: false, bfs: None })
+                    Some(Case { ops, pooled: false, bfs: None, full_probe: false })
                 },
             ));
         }
@@ -363,7 +376,24 @@ impl Prop for C18 {
                         choices.extend(alphabet.iter().cloned());
                         ops.push(ch.pick_dev(&choices).clone());
                     }
-                    Some(Case { ops, pooled: false, bfs: None })
+                    Some(Case { ops, pooled: false, bfs: None, full_probe: false })
+                },
+            ));
+        }
+        {
+            let d = tier.pick(3, 4);
+            f.push(Family::new(
+                "builtin-rules-survive",
+                Mode::Full,
+                &format!("every sequence of 1..={} operations over [add A, add B, add C, delete A, delete B, delete Z] in English and [add A, delete A] in Turkish, probed with the usual 21 lines AND one line per built-in rule pattern of en and tr (every field at its default value, generated from config.json): after any registrations and deletions every built-in rule still fires exactly as on a fresh calculator carrying the survivors", d),
+                move |ch| {
+                    let alphabet = [Op::AddRule("en".into(), 'A'), Op::AddRule("en".into(), 'B'), Op::AddRule("en".into(), 'C'), Op::DelRule("en".into(), "A".into()), Op::DelRule("en".into(), "B".into()), Op::DelRule("en".into(), "Z".into()), Op::AddRule("tr".into(), 'A'), Op::DelRule("tr".into(), "A".into())];
+                    let len = 1 + ch.choose(d);
+                    let mut ops = Vec::new();
+                    for _ in 0..len {
+                        ops.push(ch.pick(&alphabet).clone());
+                    }
+                    Some(Case { ops, pooled: false, bfs: None, full_probe: true })
                 },
             ));
         }
@@ -379,7 +409,7 @@ impl Prop for C18 {
                 for _ in 0..len {
                     ops.push(ch.pick(&alphabet).clone());
                 }
-                Some(Case { ops, pooled: false, bfs: None })
+                Some(Case { ops, pooled: false, bfs: None, full_probe: false })
             },
         ));
         {
@@ -401,7 +431,7 @@ impl Prop for C18 {
                     for _ in 0..len {
                         ops.push(ch.pick(&alphabet).clone());
                     }
-                    Some(Case { ops, pooled: true, bfs: None })
+                    Some(Case { ops, pooled: true, bfs: None, full_probe: false })
                 },
             ));
         }
@@ -417,7 +447,7 @@ impl Prop for C18 {
             &format!("explicit-state search over ALL {} operations from the fresh calculator; a state is the model state (ordered surviving rules per language, user family items) together with the fingerprint of the 21 probe observations; state constraint: at most {} live English and {} live Turkish custom rules (states beyond it are checked but not expanded); every edge replays the shortest history to its source state on a fresh calculator, applies the operation and runs the full oracle (return values, fresh-calculator equivalence, rule effect, chain arithmetic); depth bound {}", n, max_en, max_tr, depth),
             n,
             depth,
-            move |h| Case { ops: h.iter().map(|i| alphabet[*i].clone()).collect(), pooled: false, bfs: Some((max_en, max_tr)) },
+            move |h| Case { ops: h.iter().map(|i| alphabet[*i].clone()).collect(), pooled: false, bfs: Some((max_en, max_tr)), full_probe: false },
         )]
     }
 
@@ -503,7 +533,7 @@ impl C18 {
             }
         }
         // probes after the last operation
-        let observed = probe(calc);
+        let observed = if c.full_probe { probe_full(calc) } else { probe(calc) };
         v.evals += observed.len() as u64;
         v.observed = format!("{}| {}", trace, observed.iter().map(|(p, r)| format!("{} -> {}", p, r.brief())).collect::<Vec<_>>().join(" ;; "));
         for (p, r) in observed.iter() {
@@ -518,7 +548,7 @@ impl C18 {
         let mut matched: Option<Model> = None;
         let mut first_diff = String::new();
         for m in models.iter() {
-            let key = format!("fresh|{:?}", m);
+            let key = format!("fresh{}|{:?}", if c.full_probe { "-full" } else { "" }, m);
             let cached = match ctx.memo.get(&key) {
                 Some(j) => Some(j.clone()),
                 None => crate::runner::shared_get(&key),
@@ -530,7 +560,7 @@ impl C18 {
                 }
                 None => {
                     let fresh = m.build(ctx);
-                    let r: Vec<String> = probe(&fresh).iter().map(|(p, r)| format!("{} -> {:?}", p, r)).collect();
+                    let r: Vec<String> = (if c.full_probe { probe_full(&fresh) } else { probe(&fresh) }).iter().map(|(p, r)| format!("{} -> {:?}", p, r)).collect();
                     v.evals += r.len() as u64;
                     ctx.memo.insert(key.clone(), r.join("\u{1}"));
                     crate::runner::shared_put(key, r.join("\u{1}"));
@@ -654,12 +684,12 @@ impl C18 {
         //     observation, highlight tokens included, equals that of a calculator without rules
         {
             // the plain reference depends on the unit families of the model: memoise per (t1, t2)
-            let plain_key = format!("plain|{:?}|{:?}", m.t1, m.t2);
+            let plain_key = format!("plain{}|{:?}|{:?}", if c.full_probe { "-full" } else { "" }, m.t1, m.t2);
             let plain: Vec<String> = match ctx.memo.get(&plain_key) {
                 Some(j) => j.split('\u{1}').map(|s| s.to_string()).collect(),
                 None => {
                     let fresh = Model { rules: Vec::new(), ..m.clone() }.build(ctx);
-                    let r: Vec<String> = probe(&fresh).iter().map(|(p, r)| format!("{} -> {:?}", p, r)).collect();
+                    let r: Vec<String> = (if c.full_probe { probe_full(&fresh) } else { probe(&fresh) }).iter().map(|(p, r)| format!("{} -> {:?}", p, r)).collect();
                     v.evals += r.len() as u64;
                     ctx.memo.insert(plain_key, r.join("\u{1}"));
                     r
